@@ -15,6 +15,11 @@ CONSTANTS
   Menu = {{}, {0}, {0, 1}}
   Moods = {"quiet", "plain", "reorg"}
   MaxReorgs = 2
+  MsgLates = {0, 1, 3}
+  AucLates = {0, 1, 3}
+  SubLates = {0, 5}
+  AttLates = {0, 3}
+  MaxHeld = 1
   Fams = {"att", "sync", "bids"}
 INVARIANTS PendingExact
 CHECK_DEADLOCK FALSE
